@@ -146,3 +146,46 @@ def register_elf_layouts():
 
 
 register_elf_layouts()
+
+
+def register_ehabi_layouts():
+    register_layout(Layout('EH_index_struct', dict(word0=S.U32, word1=S.U32), size=8))
+    register_layout(Layout('EH_table_struct', dict(word0=S.U32), size=4))
+
+
+register_ehabi_layouts()
+
+
+def register_leb_layouts():
+    """ULEB128 as an abstract primitive for walkers: value and end position are functions of
+    (bytes, position); the link to the byte-level definition is ULEB128._parse's K1 contract (C16)"""
+    from pyvc.calls import Layout, register_layout
+    from pyvc.vals import ArrS, IntS, BoolS, to_int
+    from pyvc.ctx import PyExc
+
+    def mk(name, signed):
+        lay = Layout(name, None)
+        val = z3.Function('leb.%s.val' % ('s' if signed else 'u'), ArrS, IntS, IntS)
+        end = z3.Function('leb.end', ArrS, IntS, IntS)
+        okf = z3.Function('leb.ok', ArrS, IntS, IntS, BoolS)
+
+        def custom(I, M, stream, owner, ln, exc):
+            p = to_int(stream.pos)
+            L = to_int(stream.length)
+            ok = okf(stream.arr, L, p)
+            I.ctx.assume(end(stream.arr, p) > p)
+            I.ctx.assume(z3.Implies(ok, end(stream.arr, p) <= L))
+            if not signed:
+                I.ctx.assume(val(stream.arr, p) >= 0)
+            if not I.ctx.branch(ok):
+                raise PyExc('ELFParseError' if exc == 'ELFParseError' else 'FieldError', ln, 'truncated LEB128')
+            stream.pos = end(stream.arr, p)
+            return val(stream.arr, p)
+        lay.custom = custom
+        return lay
+    register_layout(mk('Elf_uleb128', False))
+    register_layout(mk('Dwarf_uleb128', False))
+    register_layout(mk('Dwarf_sleb128', True))
+
+
+register_leb_layouts()
